@@ -29,10 +29,90 @@ def showExcVF {α : Type} (sh : α → String) : Option (Except Py.Exc α) → S
   | some (.error e) => s!"E:{e.kind}"
   | some (.ok v) => sh v
 
+/-- objects on a protocol line, in prefix form with `,` between the tokens: `S<n>` | `F<a>:<b>` | `<class>,<obj1>,<obj2>` -/
+def parseVObj : Nat → List String → Option (Py.VObj × List String)
+  | 0, _ => none
+  | _, [] => none
+  | fuel + 1, t :: rest =>
+    if t.startsWith "S" && (t.drop 1).toString.toInt?.isSome then ((t.drop 1).toString.toInt?).map fun n => (Py.VObj.sphere n, rest)
+    else if t.startsWith "F" && (t.drop 1).toString.contains ':' then
+      match ((t.drop 1).toString.splitOn ":").map String.toInt? with
+      | [some a, some b] => some (Py.VObj.frustum a b, rest)
+      | _ => none
+    else
+      match parseVObj fuel rest with
+      | none => none
+      | some (a, rest1) =>
+        match parseVObj fuel rest1 with
+        | none => none
+        | some (b, rest2) => some (Py.VObj.node t a b, rest2)
+
+def argVObj (args : List String) (k : String) : Option Py.VObj :=
+  (Proto.arg args k).bind fun s => let toks := s.splitOn ","; (parseVObj (toks.length + 1) toks).bind fun r => if r.2.isEmpty then some r.1 else none
+
+def showVObj : Py.VObj → String
+  | .sphere n => s!"S{n}"
+  | .frustum a b => s!"F{a}:{b}"
+  | .node c a b => s!"{c},{showVObj a},{showVObj b}"
+
+/-- `gvolfront op=union|intersect|subtract a=<obj> b=<obj>` → the object the GENERATED method of `a`'s class builds (`E:<class>` = the exception);
+`op=sfu|s2u x= y= z=` → the generated `_get_volume` of the union classes on operand volumes x, y and closed-form intersection z;
+`op=sfi c1= r1= c2= r2=` → `conc` / `mc`: which computation the generated `VolSphereFrustumConeIntersection._get_volume` selects;
+`op=cache vol=<x>|none compute=<c>` → the value the generated `VolObject.get_volume` returns and the cache afterwards -/
+def handleVolObj (op : String) (args : List String) : Option String :=
+  let sph := Py.VObj.sphere 0
+  let fr := Py.VObj.frustum 0 1
+  let b01 (k : String) : Option Bool := (Proto.argInt args k).map (· != 0)
+  match op with
+  | "union" | "intersect" | "subtract" =>
+    match argVObj args "a", argVObj args "b" with
+    | some a, some b =>
+      let r := match op, a with
+        | "union", .sphere _ => sphere_union a b
+        | "union", .frustum _ _ => frustum_union a b
+        | "union", _ => sdf_union a b
+        | "intersect", .sphere _ => sphere_intersect a b
+        | "intersect", .frustum _ _ => frustum_intersect a b
+        | "intersect", _ => sdf_intersect a b
+        | _, _ => sdf_subtract a b
+      some (showExcVF showVObj r)
+    | _, _ => some "bad-args"
+  | "sfu" | "s2u" =>
+    match Proto.argFloat args "x", Proto.argFloat args "y", Proto.argFloat args "z" with
+    | some x, some y, some z =>
+      let gv : Py.VObj → Float := fun o => if o == sph then x else y
+      let f := fun (_ _ : Py.VObj) => z
+      let no := fun (_ _ : Py.VObj) => false
+      let r := if op == "sfu" then sfu_get_volume gv f (fun _ _ => 0.0 / 0.0) (fun _ => 0.0 / 0.0) no no no no (.node "VolSphereFrustumConeUnion" sph fr)
+               else s2u_get_volume gv (fun _ _ => 0.0 / 0.0) f (fun _ => 0.0 / 0.0) no no no no (.node "VolSphere2Union" sph (.sphere 1))
+      some (match r with | none => "E" | some v => Proto.showFloat v)
+    | _, _, _ => some "bad-args"
+  | "sfi" =>
+    match b01 "c1", b01 "r1", b01 "c2", b01 "r2" with
+    | some c1, some r1, some c2, some r2 =>
+      match sfi_get_volume (K := Int) (fun _ => 0) (fun _ _ => 1) (fun _ _ => 0) (fun _ => 2) (fun _ _ => c1) (fun _ _ => r1) (fun _ _ => c2) (fun _ _ => r2)
+          (.node "VolSphereFrustumConeIntersection" sph fr) with
+      | some 1 => some "conc"
+      | some 2 => some "mc"
+      | _ => some "E"
+    | _, _, _, _ => some "bad-args"
+  | "cache" =>
+    match Proto.arg args "vol", Proto.argFloat args "compute" with
+    | some vol, some c =>
+      let v0 : Option Float := if vol == "none" then none else Proto.float? vol
+      match obj_get_volume c v0 with
+      | none => some "E"
+      | some (cache, r) => some s!"{Proto.showFloat r} {match cache with | none => "none" | some x => Proto.showFloat x}"
+    | _, _ => some "bad-args"
+  | _ => none
+
 /-- `gvolfront op=get acc=<int> | accs=<name> method=<m> ids=.. pids=.. sph=.. fr=.. pc=.. cc=.. mc=<x>` → what the GENERATED `get_volume` reports
 (`E:<class>` = the exception it raises);  `gvolfront op=scene ids=.. pids=..` → the shapes the GENERATED `_get_volume_frustum_cone_mc_only` adds to
 its scene, in order (`Z` = the early `return 0` of the empty tree) -/
 def handleVolFront (args : List String) : String :=
+  match (Proto.arg args "op").bind fun op => handleVolObj op args with
+  | some out => out
+  | none =>
   match Proto.arg args "op" with
   | some "get" =>
     match Proto.arg args "method", Proto.argInts args "ids", Proto.argInts args "pids",
